@@ -251,6 +251,18 @@ def oracle(case, out):
                     return "request of %d values of kind %d exceeds what one Modbus request may carry" % (cnt, k)
                 if off + cnt - 1 > 65535 and all(cell_of(b) is not None for b in data):
                     return "request kind %d offset %d count %d leaves the 16-bit address space" % (k, off, cnt)
+            # nothing is polled that is not within the reach distance of a known register
+            reach = case["reach"] or 1
+            known_cells = {}
+            for a in data:
+                cl = cell_of(a)
+                if cl is not None:
+                    known_cells.setdefault(cl[0], []).append(cl[1])
+            if all(cell_of(b) is not None for b in data):
+                for k, off, cnt in reqs:
+                    for i in (0, cnt - 1) if cnt < 50 else range(0, cnt, max(1, cnt // 50)):
+                        if not any(abs(c - (off + i)) < reach for c in known_cells.get(k, [])):
+                            return "cell %s is polled but not within reach %d of a known register" % ((k, off + i), reach)
             served = {}
             # a 5-digit and a 6-digit address may name the same cell (40003 and 400003): such a cell is legitimately polled
             # once per form; within one form no cell may be polled twice
